@@ -125,3 +125,27 @@ def flagged(inp, bit=1 << 20):
     fl[sel] |= bit
     tables.nodes.flags = fl
     return Inp(inp.name + "_flagged", tables.tree_sequence(), inp.mu, inp.Ne, inp.tags | {"flagged"})
+
+
+def inferred(seed, k=2):
+    """tsinfer-inferred inputs (polytomies, several roots possible before simplification,
+    node flags set by tsinfer), simplified as tsdate's documentation recommends."""
+    import tsinfer
+    out = []
+    rng = np.random.default_rng(seed + 4242)
+    i = 0
+    while len(out) < k and i < 30:
+        i += 1
+        base = build.sim(n=int(rng.integers(3, 6)), L=400, rho=1e-4, mu=5e-3, Ne=100, seed=int(rng.integers(1, 2**31)))
+        if base.num_sites < 3:
+            continue
+        try:
+            sd = tsinfer.SampleData.from_tree_sequence(base, use_sites_time=False)
+            its = tsinfer.infer(sd)
+            import tsdate
+            ts = tsdate.preprocess_ts(its)
+        except Exception:  # noqa: BLE001
+            continue
+        if _ok_for_dating(ts):
+            out.append(Inp(f"inferred{seed}_{i}", ts, 5e-3, 100, {"contemp", "inferred"}))
+    return out
